@@ -66,6 +66,12 @@ def est_oracle(rep, S, A, proof, pk, cid_s, cust_s, merch_s):
 
 def run(rep):
     prog = rep.prog
+    from .c06 import id_encoding
+    id_encoding(rep)
+    from .c17 import value_encoding
+    value_encoding(rep, amounts=False)      # establish has no payment amount
+    from .c15 import wire_group_membership
+    wire_group_membership(rep)
     rep.rule("fs-zkabacus", "every non-response atom of EstablishProof (wire form) is absorbed into the challenge before finish()")
     rep.rule("prover-verifier", "EstablishProof::new and verify derive the same challenge term for an honest proof")
     rep.rule("statement-binding", "merchant key (all five element groups), channel id, both balances and the context each reach the challenge hash")
